@@ -73,11 +73,12 @@ def is_num(x):
 
 class S:
     """symbolic real scalar in polynomial normal form"""
-    __slots__ = ("p", "_z")
+    __slots__ = ("p", "_z", "nn")
 
-    def __init__(self, p):
+    def __init__(self, p, nn=False):
         self.p = p
         self._z = None
+        self.nn = nn      # known non-negative BY CONSTRUCTION (square, sum/product of such, sqrt/abs atom)
 
     # -- construction helpers
     @staticmethod
@@ -85,7 +86,7 @@ class S:
         if isinstance(x, S):
             return x
         if is_num(x):
-            return S(Poly.const(_frac(x)))
+            return S(Poly.const(_frac(x)), nn=(x >= 0))
         if isinstance(x, np.ndarray) and x.ndim == 0:
             return S.lift(x.item())
         raise TypeError("cannot lift %r" % type(x))
@@ -115,7 +116,10 @@ class S:
         return _mk(f(self.p, o.p))
 
     def __add__(self, o):
-        return self._bin(o, lambda a, b: a + b)
+        r = self._bin(o, lambda a, b: a + b)
+        if isinstance(r, S) and self.nn and _nn(o):
+            r.nn = True
+        return r
 
     __radd__ = __add__
 
@@ -126,7 +130,10 @@ class S:
         return self._bin(o, lambda a, b: b - a)
 
     def __mul__(self, o):
-        return self._bin(o, lambda a, b: a * b)
+        r = self._bin(o, lambda a, b: a * b)
+        if isinstance(r, S) and ((self.nn and _nn(o)) or o is self or (isinstance(o, S) and o.p.key() == self.p.key())):
+            r.nn = True
+        return r
 
     __rmul__ = __mul__
 
@@ -224,6 +231,14 @@ class S:
             return "S(%s)" % (z3.simplify(self.z()),)
         except Exception:
             return "S(?)"
+
+
+def _nn(o):
+    if isinstance(o, S):
+        return o.nn
+    if is_num(o):
+        return o >= 0
+    return False
 
 
 def _mk(p):
@@ -405,7 +420,7 @@ class Ctx:
         self.alternatives = []
         self.facts = []                  # list of (name, z3 BoolRef)
         self.obligations = []
-        self.opts = dict(feas_timeout_ms=300, feasibility=True, abs_ite=False)
+        self.opts = dict(feas_timeout_ms=300, feasibility=True, abs_ite=False, minmax_ite=False)
         if opts:
             self.opts.update(opts)
         self._fresh = itertools.count()
@@ -584,6 +599,20 @@ class Ctx:
         self.facts.append(("branch", t if val else z3.Not(t)))
         return val
 
+    def choice(self, n, label="choice"):
+        """nondeterministic choice among range(n): every alternative is explored as its own path"""
+        if self.mode == "concrete":
+            return self.rng.randrange(n)
+        k = len(self.decisions)
+        if k < len(self.prefix):
+            val = self.prefix[k]
+        else:
+            val = 0
+            for j in range(1, n):
+                self.alternatives.append(self.decisions + [j])
+        self.decisions.append(val)
+        return val
+
     def _feasible(self, t):
         s = z3.Solver()
         s.set("timeout", self.opts["feas_timeout_ms"])
@@ -604,11 +633,12 @@ class Ctx:
         xs = x.simplify()
         if not isinstance(xs, S):
             return self.sqrt(xs)
-        self.prove("sqrt_arg_nonneg", x >= 0, kind="safety", prop_level=False)
+        self.prove("sqrt_arg_nonneg", True if x.nn else (x >= 0), kind="safety", prop_level=False)
         key = x.p.key()
         if key in self._sqrt_cache:
             return self._sqrt_cache[key]
         name, s = self.fresh("sqrt")
+        s.nn = True
         self.defs[name] = ("sqrt", x)
         self.facts.append(("def:" + name, z3.And(s.z() >= 0, (s * s).z() == x.z()) if isinstance(s * s, S) else z3.BoolVal(True)))
         self._sqrt_cache[key] = s
@@ -652,13 +682,41 @@ class Ctx:
         if is_num(x):
             return abs(x)
         if self.opts["abs_ite"]:
+            x = S.lift(x)
+            key = ("abs", x.p.key())
+            nkey = ("abs", (-x).p.key())
+            if key in self._sqrt_cache:
+                return self._sqrt_cache[key]
+            if nkey in self._sqrt_cache:
+                return self._sqrt_cache[nkey]
             name, a = self.fresh("abs")
+            a.nn = True
+            self._sqrt_cache[key] = a
             self.defs[name] = ("abs", x)
             self.facts.append(("def:" + name, z3.And(a.z() >= 0, z3.Or(a.z() == x.z(), a.z() == (-x).z()))))
             return a
         if x >= 0:
             return x
         return -x
+
+    def extremum(self, xs, kind):
+        """max / min of a list without forking: fresh atom m with  m >= all  and  m equal to one of them"""
+        xs = list(xs)
+        if all(is_num(x) for x in xs):
+            return max(xs) if kind == "max" else min(xs)
+        key = (kind, tuple(S.lift(x).p.key() for x in xs))
+        if key in self._sqrt_cache:
+            return self._sqrt_cache[key]
+        name, m = self.fresh(kind)
+        self._sqrt_cache[key] = m
+        self.defs[name] = (kind, xs)
+        ts = []
+        for x in xs:
+            c = (m >= x) if kind == "max" else (m <= x)
+            ts.append(bz(c))
+        ts.append(z3.Or(*[bz(m == x) for x in xs]))
+        self.facts.append(("def:" + name, z3.And(*ts)))
+        return m
 
     def let(self, stem, x):
         """name an intermediate: fresh atom equal to x (definition available as fact 'def:<name>')"""
